@@ -90,7 +90,13 @@ var c18Templates = map[string]string{
 	"failmacro.html":  "{% macro m(v) %}partial-{{ v }}{{ nofunc() }}{% endmacro %}[{{ _self.m(x) }}]",
 	"failblock.html":  "{% set c = block('b') %}{% block b %}partial-{{ x }}{% if t %}{{ nofunc() }}{% endif %}{% endblock %}",
 	"failinc.html":    "{% filter upper %}outer-{% include 'runtime.html' %}{% endfilter %}",
-	"tests.txt":       "{{ 4 is pos }}{{ 0 is not pos }}{% for i in items if i %}{{ loop.index }}{{ i }}{% else %}none{% endfor %}",
+	// the same kind of parse error at different places of different templates: every caller keeps its own
+	"dblext1.html": "{% extends 'f.html.twig' %}\n{% extends 'a.html' %}",
+	"dblext2.twig": "x{% extends 'a.html' %}{% block one %}{% endblock %}\n\n  {% extends 'f.html.twig' %}",
+	"dblext3.txt":  "{% extends 'a.html' %}{% extends 'a.html' %}",
+	// top-level assignments (also run without any context map)
+	"toplevel.txt": "{% set v = 'own' %}{{ v }}[{{ leak }}]{% set leak = 'L' ~ x %}{% import 'macros.twig' as mm %}{{ mm.wrap(leak) }}",
+	"tests.txt":    "{{ 4 is pos }}{{ 0 is not pos }}{% for i in items if i %}{{ loop.index }}{{ i }}{% else %}none{% endfor %}",
 }
 
 // c18Shared / c18SharedMap are read-only values that every context refers to (the same Go slice, with spare
@@ -176,6 +182,9 @@ func c18NewEnvs() (*stick.Env, *stick.Env) {
 }
 
 func c18copyCtx(m map[string]stick.Value) map[string]stick.Value {
+	if m == nil {
+		return nil // a call without variables
+	}
 	c := make(map[string]stick.Value, len(m))
 	for k, v := range m {
 		c[k] = v
@@ -183,8 +192,21 @@ func c18copyCtx(m map[string]stick.Value) map[string]stick.Value {
 	return c
 }
 
+// c18ctxAt returns context ci; index len(c18Ctx) is "no context at all" (nil map).
+func c18ctxAt(ci int) map[string]stick.Value {
+	if ci >= len(c18Ctx) {
+		return nil
+	}
+	return c18Ctx[ci]
+}
+
 func c18do(env *stick.Env, op int, name string, ctx map[string]stick.Value) c18exp {
-	var e c18exp
+	e, _ := c18doErr(env, op, name, ctx)
+	return e
+}
+
+// c18doErr also hands out the error value itself: it belongs to the caller from then on.
+func c18doErr(env *stick.Env, op int, name string, ctx map[string]stick.Value) (e c18exp, errObj error) {
 	if strings.HasPrefix(name, "g") && strings.Contains(name, "/") {
 		ctx = detContext() // a fresh map per call
 	}
@@ -197,7 +219,7 @@ func c18do(env *stick.Env, op int, name string, ctx map[string]stick.Value) c18e
 		if op == 1 {
 			t, err := env.Parse(name)
 			if err != nil {
-				e.err = err.Error()
+				e.err, errObj = err.Error(), err
 			} else {
 				e.out = t.Root().String()
 			}
@@ -205,11 +227,11 @@ func c18do(env *stick.Env, op int, name string, ctx map[string]stick.Value) c18e
 		}
 		var buf bytes.Buffer
 		if err := env.Execute(name, &buf, ctx); err != nil {
-			e.err = err.Error()
+			e.err, errObj = err.Error(), err
 		}
 		e.out = buf.String()
 	}()
-	return e
+	return e, errObj
 }
 
 // event log of the plain build
@@ -264,9 +286,9 @@ func (p *c18) Init(tier string, seed int64) {
 	p.expected = map[string]c18exp{}
 	for ei, env := range []*stick.Env{tw, co} {
 		for _, n := range p.names {
-			for ci, c := range c18Ctx {
+			for ci := 0; ci <= len(c18Ctx); ci++ {
 				for op := 0; op < 2; op++ {
-					p.expected[fmt.Sprintf("%d|%d|%s|%d", ei, op, n, ci)] = c18do(env, op, n, c18copyCtx(c))
+					p.expected[fmt.Sprintf("%d|%d|%s|%d", ei, op, n, ci)] = c18do(env, op, n, c18copyCtx(c18ctxAt(ci)))
 				}
 			}
 		}
@@ -297,6 +319,11 @@ func (p *c18) Describe(i int) interface{} {
 		"templates": len(c18Templates), "race_build_worker": i%2 == 0, "shared": "one twig.New and one stick.New environment per worker process, reused by every round"}
 }
 
+type c18held struct {
+	err  error
+	text string
+}
+
 type c18mismatch struct {
 	key      string
 	got, exp c18exp
@@ -315,6 +342,7 @@ func (p *c18) Run(i int) (res fw.Result) {
 	start := make(chan struct{})
 	var wg sync.WaitGroup
 	results := make([][]c18mismatch, rd.goroutines)
+	held := make([][]c18held, rd.goroutines) // errors the callers keep until the round is over
 	for g := 0; g < rd.goroutines; g++ {
 		wg.Add(1)
 		go func(g int) {
@@ -327,7 +355,7 @@ func (p *c18) Run(i int) (res fw.Result) {
 			}
 			calls := make([]call, rd.calls)
 			for k := range calls {
-				calls[k] = call{ei: r.Intn(4) / 3, op: r.Intn(4) / 3, ci: r.Intn(len(c18Ctx)), name: p.names[r.Intn(len(p.names))]}
+				calls[k] = call{ei: r.Intn(4) / 3, op: r.Intn(4) / 3, ci: r.Intn(len(c18Ctx) + 1), name: p.names[r.Intn(len(p.names))]}
 			}
 			<-start
 			for _, c := range calls {
@@ -344,7 +372,10 @@ func (p *c18) Run(i int) (res fw.Result) {
 						}
 					}
 				}
-				got := c18do(env, c.op, c.name, c18copyCtx(c18Ctx[c.ci]))
+				got, errObj := c18doErr(env, c.op, c.name, c18copyCtx(c18ctxAt(c.ci)))
+				if errObj != nil {
+					held[g] = append(held[g], c18held{errObj, got.err})
+				}
 				if !fw.IsRaceBuild {
 					atomic.AddInt64(&c18live, -1)
 				}
@@ -357,6 +388,13 @@ func (p *c18) Run(i int) (res fw.Result) {
 	}
 	close(start)
 	wg.Wait()
+	for g := range held {
+		for _, h := range held[g] {
+			if now := h.err.Error(); now != h.text {
+				res.Fail("error-changed-after-return", "c18:heldError", fmt.Sprintf("round %d: an error that read %q when the call returned reads %q after the other calls have finished", i, clip(h.text, 200), clip(now, 200)), nil)
+			}
+		}
+	}
 	if bad := c18SharedIntact(); bad != "" {
 		res.Fail("caller-value-changed", "c18:shared", fmt.Sprintf("round %d: a value handed in through the context was modified: %s", i, bad), nil)
 	}
@@ -397,7 +435,7 @@ func (p *c18) Run(i int) (res fw.Result) {
 }
 
 func (p *c18) Rule() string {
-	return fmt.Sprintf("rounds: N in {2,4,16,64} goroutines released by one barrier, each doing 3..6 calls decided beforehand (Execute or Parse, Twig or core environment, one of %d hand-written templates and 10 (quick) / 24 (thorough) generated multi-template programs (every tag and operator, inheritance chains, include/embed/use/import; own name prefix each), mixing .html/.js/.css/.txt/no extension/unknown extension, blocks, inheritance, include and embed of another content type, macros, imports, filter sections, captures, a syntax error, run-time errors (also after partial output inside a filter section, a capture, a macro, a block and an include), filters building new values from a slice (with spare capacity) and a map that ALL contexts share; 4 contexts) with its own context map and buffer, on ONE shared twig.New and ONE shared stick.New environment per worker process; GOMAXPROCS in {1,2,16}. Even rounds run in -race workers (traverse hook = bare Gosched at module/block/body/print nodes, no monitor-side synchronisation); odd rounds in plain workers (hook = seeded yields and micro-sleeps, global module-enter event log). Oracles: (1) the race detector's log (halt_on_error=0, log_path) parsed by the driver: every report with a library frame is a violation, deduplicated by the set of library functions involved; (2) every concurrent result (output and error text, or the parsed tree's String()) equals the result of the same call on a fresh identically configured environment run alone; (3) no panic in any goroutine; (4) the shared context values are unchanged after every round, spare capacity included. Non-trivial = plain-build round in which >=2 calls were in flight at once; distinct = (N, hash of the global order of module-enter events).", len(c18Templates))
+	return fmt.Sprintf("rounds: N in {2,4,16,64} goroutines released by one barrier, each doing 3..6 calls decided beforehand (Execute or Parse, Twig or core environment, one of %d hand-written templates and 10 (quick) / 24 (thorough) generated multi-template programs (every tag and operator, inheritance chains, include/embed/use/import; own name prefix each), mixing .html/.js/.css/.txt/no extension/unknown extension, blocks, inheritance, include and embed of another content type, macros, imports, filter sections, captures, a syntax error, run-time errors (also after partial output inside a filter section, a capture, a macro, a block and an include), filters building new values from a slice (with spare capacity) and a map that ALL contexts share; 4 contexts and no context at all) with its own context map and buffer, on ONE shared twig.New and ONE shared stick.New environment per worker process; GOMAXPROCS in {1,2,16}. Even rounds run in -race workers (traverse hook = bare Gosched at module/block/body/print nodes, no monitor-side synchronisation); odd rounds in plain workers (hook = seeded yields and micro-sleeps, global module-enter event log). Oracles: (1) the race detector's log (halt_on_error=0, log_path) parsed by the driver: every report with a library frame is a violation, deduplicated by the set of library functions involved; (2) every concurrent result (output and error text, or the parsed tree's String()) equals the result of the same call on a fresh identically configured environment run alone; (3) no panic in any goroutine; (4) the shared context values are unchanged after every round, spare capacity included; (5) every error value a call returned still reads the same after all other calls of the round have finished. Non-trivial = plain-build round in which >=2 calls were in flight at once; distinct = (N, hash of the global order of module-enter events).", len(c18Templates))
 }
 
 func (p *c18) Assumptions() []string {
